@@ -1394,4 +1394,25 @@ Section Sound.
       apply forallb_forall. intros x Hx. apply in_map_iff in Hx. destruct Hx as (b & <- & Hb).
       rewrite Forall_forall in Hp. apply Hp. exact Hb.
   Qed.
+
+  (* MessageGenerator *)
+  Lemma gen_sdeep mid tp v : gen vr o sch ann mid tp = Ok v -> SD top_fuel 1 INoField mid v.
+  Proof.
+    unfold gen. set (tp1 := if v_root_draw vr then snd (draw_bool tp) else tp). clearbody tp1.
+    destruct (set_fields vr o sch ann top_fuel 0 INoField mid (fresh sch mid) tp1) as [[[v'|] t]| | |] eqn:E; try discriminate.
+    - intros E'. injection E' as <-. pose proof (set_fields_sound _ _ _ _ _ _ _ _ E) as H. cbn beta iota in H.
+      destruct H as (_ & _ & _ & (md & ma & Hg & Ha) & Hs). apply (Hs 0). eapply fresh_cur_ok; eauto.
+    - intros E'. injection E' as <-. pose proof (set_fields_sound _ _ _ _ _ _ _ _ E) as H. cbn beta iota in H.
+      destruct H as [H|[Hia Hu]]; [lia|].
+      (* the root is an Any and AnyTypeURLs is empty: the message is left as created *)
+      unfold is_any, wkt_of in Hia. destruct (nth_error ann mid) as [ma|] eqn:Ha; [|discriminate].
+      destruct (a_wkt ma) eqn:Ew; try discriminate.
+      unfold top_fuel, fresh. cbn [sdeep]. destruct (get_msg sch mid) as [md|] eqn:Hg.
+      + rewrite Ha, Ew. destruct (ann_ok_nth _ _ _ _ _ Hann Hg Ha) as [Hlay _]. rewrite Ew in Hlay. cbn [wkt_layout] in Hlay.
+        apply fields_eqb_eq in Hlay. unfold empty_msg. rewrite Hlay. cbn [map default_slot fld f_shape f_ty zero_scalar].
+        split; [reflexivity|]. exists [], VNil. split; [reflexivity|]. split; [left; reflexivity|]. rewrite Hu. split; reflexivity.
+      + exfalso. unfold ann_ok in Hann. clear - Hann Hg Ha. revert mid Hg Ha. revert Hann. generalize ann as an. induction sch as [|m0 sc IHs]; intros [|a0 an]; cbn [ann_ok_aux]; try discriminate.
+        * intros _ mid _ Ha. destruct mid; discriminate.
+        * intros H mid Hg Ha. apply andb_true_iff in H. destruct H as [_ H]. destruct mid as [|mid]; cbn in Hg; [discriminate|]. eapply IHs; eauto.
+  Qed.
 End Sound.
